@@ -3390,3 +3390,73 @@ P.PROPS["C03"]["streams"].append(c13_shared_lines)
 # the same malformed tag line at different line numbers of different documents (whatever object holds a line must not
 # remember where the same text stood before)
 ABORTING_DOCS += ["@smoke test\nFeature: f\n  Scenario: s\n", "Feature: f\n\n\n@smoke test\n  Scenario: s\n    Given g\n", "# c\n# d\nFeature: f\n  Scenario: s\n    Given g\n@smoke test\n"]
+
+
+# ---------------------------------------------------------------- round 14
+P.PROPS["C04"]["streams"].append(abort_histories("C04", P.p_locations))
+P.PROPS["C16"]["streams"].append(long_runs_ast("C16", P.p_whole))
+
+
+def c16_repeated_insertions(ctx):
+    """inserting many blank and comment lines at one place (1 .. 70 of them, before a tagged Scenario / Examples / Rule line,
+    inside the tag run) changes only line numbers and the comment list: model against implementation on every variant"""
+    bases = [("Feature: f\n  Scenario: s\n    Given g\n  @a @b\n", "  @c\n  Scenario: t\n    Given h\n"),
+             ("Feature: f\n  Scenario Outline: s\n    Given <x>\n    @e1\n", "    @e2\n    Examples:\n      | x |\n      | 1 |\n"),
+             ("Feature: f\n  Background:\n    Given b\n  @r\n", "  Rule: r\n    @s\n    Example: e\n      Given h\n")]
+    srcs = []
+    for pre, post in bases:
+        for n in (1, 2, 15, 16, 17, 30, 31, 32, 33, 63, 64, 65, 70):
+            srcs.append(pre + "\n" * n + post)
+            srcs.append(pre + "".join("  # c%d\n" % i for i in range(n)) + post)
+            srcs.append(pre + "".join(("   \n" if i % 2 else "  # c%d\n" % i) for i in range(n)) + post)
+    return e2e("repeated-insertions", srcs, P.p_whole, modes=(False, True), nontrivial=nt_accepted("ast"), exhaustive=True)
+
+
+P.PROPS["C16"]["streams"].append(c16_repeated_insertions)
+
+
+def c09_wide_tables(ctx):
+    """placeholders are replaced column by column in header order whatever the number of columns: tables of 3 .. 40 columns
+    whose values contain the placeholders of later and of earlier columns, regex metacharacters and backslashes"""
+    srcs = []
+    for n in (3, 9, 10, 11, 12, 20, 40):
+        heads = ["c%d" % i for i in range(1, n + 1)]
+        rows = [["<c%d>" % n] + ["v%d" % i for i in range(2, n + 1)],                       # the first value names the last column
+                ["<c2>", "<c3>"] + ["w%d" % i for i in range(3, n + 1)],                    # a chain
+                ["v1"] * (n - 1) + ["<c1>"],                                                # the last value names the first column
+                ["\\1", "$2", ".*", "\\g<0>"][:min(4, n)] + ["z"] * max(0, n - 4)]
+        text = " ".join("<%s>" % h for h in heads)
+        srcs.append("Feature: f\n  Scenario Outline: o <c1> <c%d>\n    Given %s\n      | <c1> | <c%d> |\n    And d\n      \"\"\"<c1>\n      <c1>-<c%d>\n      \"\"\"\n    Examples:\n      | %s |\n%s"
+                    % (n, text, n, n, " | ".join(heads), "".join("      | %s |\n" % " | ".join(r) for r in rows)))
+    reqs = [("events", [False, False, True, False, [["u.feature", s]]]) for s in srcs]
+
+    def pr(r_, req=None):
+        if "envelopes" not in r_:
+            return {"outcome": P.outcome(r_)}
+        return [pk_interp(e["pickle"]) for e in r_["envelopes"] if "pickle" in e]
+    return differential("wide-tables", reqs, proj=pr, nontrivial=lambda q, x: canon(q[1])[:100], classify=lambda q, x: "doc", exhaustive=True)
+
+
+P.PROPS["C09"]["streams"].append(c09_wide_tables)
+P.PROPS["C06"]["streams"].append(c09_wide_tables)
+
+
+def abort_streams(pid):
+    """one stream through several sources: after a source that was cut short (the eleventh error reached while look-ahead
+    tokens were buffered, a doc string left open, an unknown dialect) the following sources yield the envelopes they yield
+    in a stream of their own, with the ids raised by the counter"""
+    def stream(ctx):
+        reqs = []
+        for a in ABORTING_DOCS:
+            for f in FOLLOWING_DOCS[:4]:
+                for opts in ((False, True, True), (True, True, False)):
+                    reqs.append(("events", [opts[0], opts[1], opts[2], False, [["a.feature", a], ["b.feature", f], ["c.feature", FOLLOWING_DOCS[1]]]]))
+            reqs.append(("events", [False, True, True, True, [["a.feature", a], ["b.feature", FOLLOWING_DOCS[0]]]]))
+        return differential("stream-after-a-source-cut-short/" + pid, reqs, nontrivial=lambda q, x: canon(q[1])[:300], classify=lambda q, x: "stream", exhaustive=True)
+    stream.__name__ = "abort_streams_" + pid
+    stream.__doc__ = abort_streams.__doc__
+    return stream
+
+
+for _pid in ("C17", "C15", "C01"):
+    P.PROPS[_pid]["streams"].append(abort_streams(_pid))
